@@ -491,7 +491,7 @@ pub fn check(tier: Tier) -> i32 {
         stats: &rep.stats,
         exhaustive: None,
     });
-    println!(
+    out!(
         "C05 {}: {} runs, {} distinct non-trivial histories, {} distinct schedules, {:.1}s, violations={}",
         tier.name(), rep.runs, rep.nontrivial_distinct, rep.distinct_schedules, rep.wall_s, newv
     );
